@@ -3,6 +3,7 @@ package main
 import (
 	"fmt"
 	"reflect"
+	"runtime"
 	"sort"
 	"strings"
 
@@ -24,6 +25,8 @@ import (
 // four adapters concurrently, under every schedule of the instrumented sources,
 // and demands of each single result what the statement demands: no error, the
 // type of the source (resp. of the destination), equal content, source unchanged.
+// The user-supplied functions the adapters wrap (codec, clone and copy function)
+// contain a scheduling point: they may block, so adapter operations overlap.
 //
 // "direct" scenarios have no RPC: Scenario.Tasks lists, per task, the operations
 // "<adapter>:<clone|copy>:<message>".
@@ -35,16 +38,46 @@ func init() {
 var c18Adapters = []string{"proto", "codec", "clonefn", "copyfn"}
 var c18Msgs = []string{"gen", "dynM", "dynT", "genT"}
 
-func c18Cloner(name string) inprocgrpc.Cloner {
+// userYield marks a point inside a user-supplied function (codec, clone or copy
+// function): such functions may block or be descheduled, so another task can
+// run while an adapter operation is in the middle of calling them.
+func userYield(native bool, where string) {
+	if native {
+		runtime.Gosched()
+		return
+	}
+	mc.Yield("user:" + where)
+}
+
+// yieldingCodec is the registered proto codec with scheduling points in Marshal / Unmarshal.
+type yieldingCodec struct {
+	encoding.Codec
+	native bool
+}
+
+func (c yieldingCodec) Marshal(v interface{}) ([]byte, error) {
+	userYield(c.native, "codec.Marshal")
+	return c.Codec.Marshal(v)
+}
+func (c yieldingCodec) Unmarshal(b []byte, v interface{}) error {
+	userYield(c.native, "codec.Unmarshal")
+	return c.Codec.Unmarshal(b, v)
+}
+
+func c18Cloner(name string, native bool) inprocgrpc.Cloner {
 	switch name {
 	case "proto":
 		return inprocgrpc.ProtoCloner{}
 	case "codec":
-		return inprocgrpc.CodecCloner(encoding.GetCodec(grpcproto.Name))
+		return inprocgrpc.CodecCloner(yieldingCodec{encoding.GetCodec(grpcproto.Name), native})
 	case "clonefn":
-		return inprocgrpc.CloneFunc(func(in interface{}) (interface{}, error) { return proto.Clone(in.(proto.Message)), nil })
+		return inprocgrpc.CloneFunc(func(in interface{}) (interface{}, error) {
+			userYield(native, "clonefn")
+			return proto.Clone(in.(proto.Message)), nil
+		})
 	case "copyfn":
 		return inprocgrpc.CopyFunc(func(out, in interface{}) error {
+			userYield(native, "copyfn")
 			b, err := proto.Marshal(in.(proto.Message))
 			if err != nil {
 				return err
@@ -134,7 +167,7 @@ func (e *Env) directBody() {
 	case "C18":
 		cls := map[string]inprocgrpc.Cloner{}
 		for _, a := range c18Adapters {
-			cls[a] = c18Cloner(a)
+			cls[a] = c18Cloner(a, e.native)
 		}
 		op = func(ti, k int, o string) string {
 			f := strings.Split(o, ":")
